@@ -221,6 +221,37 @@ def check(tier, seed):
             if a != b:
                 res.violation('parser behaves differently with DEBUG logging', {'property': 'C19', 'input': {'stream_hex': C.hexs(s), 'filter': filt},
                                                                                 'logging_disabled': a[:800], 'logging_debug': b[:800]}, 'c19-logparser')
+        # the same with frame classes registered in the process-wide factory and frames of THOSE class/ids - with payloads
+        # that do not fit their layouts - passing by unfiltered (what a server sees between its requests)
+        from ubxlib.frame_factory import FrameFactory
+        regs = [e for _, e in sorted(mt.items()) if e['kind'] in ('fixed', 'counted', 'monver')]
+        for k in range(40 if tier == 'quick' else 1500):
+            FrameFactory.destroy()
+            ff = FrameFactory.getInstance()
+            some = rng2.sample(regs, 6)
+            for e in some:
+                ff.register(e['cls'])
+            s = b''
+            for e in some[:4]:
+                s += G.frame(e['cid'][0], e['cid'][1], bytes(rng2.getrandbits(8) for _ in range(rng2.choice([0, 1, 2, 3, 5, 9, 40]))))
+            filt = rng2.choice([[], [some[5]['cid']], [(5, 1)], None])
+            ops = [('P', s[:len(s) // 2]), ('P', s[len(s) // 2:]), ('K',), ('K',)]
+            a = C.guarded(G.impl_ubx, filt, ops)
+            logging.disable(logging.NOTSET)
+            lg.setLevel(logging.DEBUG)
+            if not lg.handlers:
+                lg.addHandler(logging.NullHandler())
+            try:
+                b = C.guarded(G.impl_ubx, filt, ops)
+            finally:
+                lg.setLevel(logging.CRITICAL + 1)
+                logging.disable(logging.CRITICAL)
+                FrameFactory.destroy()
+            n_diff += 1
+            if a != b:
+                res.violation('parser behaves differently with DEBUG logging (registered classes, unfiltered malformed frames)',
+                              {'property': 'C19', 'input': {'stream_hex': C.hexs(s), 'filter': filt, 'registered': [e['cls'].__name__ for e in some]},
+                               'logging_disabled': a[:800], 'logging_debug': b[:800]}, 'c19-logparser-reg')
         res.notes['log_level_differential_runs'] = n_diff
         res.cases += n_diff
         res.oblige('DEBUG-vs-disabled differential and direct str() checks on the implementation', not res.violations)
